@@ -187,7 +187,7 @@ def check_case(case):
     prev, prev_lbl = F0, "start"
     for k, Fk in zip(fam["budgets"], Fs):
         if not leq(Fk, prev, scale):
-            wild = c01.wild_newton_step(case, P.run(case)) if name == "ProxNewton" else False
+            wild = c01.wild_newton_step(case, None) if name in ("ProxNewton", "GroupProxNewton") else False
             period = (fam["kind"] == "B" and k in (7, 13, 14)) or (fam["kind"] == "A" and s.get("max_epochs") in (7, 13, 14))
             viol.append(Viol(dict(sig, kind="objective-increase", vs=("start" if prev_lbl == "start" else "previous-budget"),
                                   at_extrapolation_budget=bool(period), wild_newton_step=wild),
@@ -199,7 +199,9 @@ def check_case(case):
         prev, prev_lbl = Fk, f"{fam['knob']}={k}"
     # extrapolation differential
     crossed = False
-    if not viol and name in ("AndersonCD", "GroupBCD", "GramCD", "MultiTaskBCD"):
+    # only family B (outer budget 1): there the first budget at which the accelerated and the plain run differ ends
+    # exactly at the acceptance of an extrapolation; after later epochs / working sets no ordering is guaranteed
+    if not viol and fam["kind"] == "B" and name in ("AndersonCD", "GroupBCD", "GramCD", "MultiTaskBCD"):
         with _Patch():
             for k, Fk, wk in zip(fam["budgets"], Fs, ws):
                 outp = P.run(with_budget(case, k, plain=True))
